@@ -137,7 +137,7 @@ Inductive body :=
 | ZTkNew (core : tensor Z) (fs : list (mat Z)) (expected : res (list nat * list nat))               (* TuckerTensor(...): shape, rank *)
 | ZTkDotApi (core : tensor Z) (fs : list (mat Z)) (x : operand (F:=Z)) (mode : Z) (keep_dim : bool) (expected : res (list nat * list nat))
 | QTkNormApi (tape : list (list Q)) (core : tensor Q) (fs : list (mat Q)) (expected : res (list nat * list nat))
-| ZHeapDot (arrs : list (mat Z)) (ls : list nat) (w : option nat) (is_class copy : bool) (x : operand (F:=Z)) (mode : nat) (keep_dim : bool)
+| ZHeapDot (inplace : bool) (arrs : list (mat Z)) (ls : list nat) (w : option nat) (is_class copy : bool) (x : operand (F:=Z)) (mode : nat) (keep_dim : bool)
            (expected : res (list nat * (list Z * list (mat Z)))) (after : list (mat Z)) (shared : list bool) (list_same : bool)
 | QAlign (norm_t : bool) (rw : list Q) (rfs : list (mat Q)) (tw : list Q) (tfs : list (mat Q)) (tA tB : list (list Q)) (perm : list nat).
 
@@ -201,9 +201,9 @@ Definition agree_body (b : body) : bool :=
       res_eqb2 (fun o e' => nat_list_eqb (tko_shape o) (fst e') && nat_list_eqb (tko_rank o) (snd e')) (tucker_mode_dot_api Zops core fs x m kd) e
   | QTkNormApi tape core fs e =>
       res_eqb2 (fun o e' => nat_list_eqb (tko_shape o) (fst e') && nat_list_eqb (tko_rank o) (snd e')) (tucker_normalize_api Qops tape core fs) e
-  | ZHeapDot arrs ls w cl cp x m kd e after shared same =>
+  | ZHeapDot inplace arrs ls w cl cp x m kd e after shared same =>
       let (h0, r) := heap0 arrs ls w cl in
-      match cp_mode_dot_h Zops h0 r cp x m kd, e with
+      match cp_mode_dot_h_src Zops inplace h0 r cp x m kd, e with
       | Ok (h', o), Ok e' =>
           obj_eqb zcp_dense_eqb (read_obj h' o) e' &&
           Bool.eqb (model_alias cp arrs ls h' o) (alias_okb cp arrs after shared same)
